@@ -426,7 +426,7 @@ func (dc *decCodec) classify(e *env, cc [2]string, s string, reduce bool) (cls, 
 	if ref, ok := dc.Ref(s); ok {
 		t := pToT(ref)
 		if !reduce {
-			if cc[0] == "json_decode(default)" && t.K != 'm' {
+			if cc[0] == "json_decode(default)" && t.K != 'm' && failsText("0") {
 				return "non-object-document", s
 			}
 			if dc.Feat != nil {
@@ -456,9 +456,6 @@ func (dc *decCodec) classify(e *env, cc [2]string, s string, reduce bool) (cls, 
 				break
 			}
 			cur = next
-		}
-		if cc[0] == "json_decode(default)" && !strings.HasPrefix(strings.TrimLeft(cur, " \t\r\n"), "{") {
-			return "non-object-document", cur
 		}
 		return "spelling " + textClass(cur), cur
 	}
